@@ -18,7 +18,7 @@ ASSUMPTIONS = ["the simulated device is instantaneous, so an empty read while a 
                "asyncio tasks can only interleave at awaits: the async twin yields at transport calls and lock operations, never at source lines",
                "schedules beyond the preemption bound are sampled, not enumerated"]
 SHARDS = {"quick": 16, "thorough": 16}
-TIME_BUDGET = {"quick": 90, "thorough": 1200}
+TIME_BUDGET = {"quick": 300, "thorough": 1800}
 FLOORS = {"quick": {"schedules": 2500, "distinct": 1500, "packets_parked": 2000, "put_wrapper_calls": 2000, "enumerated_schedules": 500, "async_schedules": 300, "free_runs": 100},
           "thorough": {"schedules": 40000, "distinct": 25000, "enumerated_schedules": 8000}}
 EXHAUSTIVE = {"quick": False, "thorough": False}
